@@ -1044,8 +1044,10 @@ func copySparse(src, dst string) error {
 // with the file transfer done in process
 func (r *run) rebuildCopy(a, src string) error {
 	to, from := r.node(a), r.node(src)
-	if err := to.s.SetRebuilding(true); err != nil {
-		return err
+	if st, _ := to.s.Status(); st != replica.Rebuilding {
+		if err := to.s.SetRebuilding(true); err != nil {
+			return err
+		}
 	}
 	fr := from.s.Replica()
 	if fr == nil {
@@ -1193,6 +1195,50 @@ func (r *run) generate(n int, profile string) {
 				do(Op{Ev: "PresetRev", A: nm, Rev: int64(1 + rng.Intn(5))})
 			}
 		}
+	}
+	if profile != "bootstrap" && rng.Intn(3) != 0 {
+		// fast-forward to a rich membership: bootstrap, then add + rebuild + promote up to a
+		// random target, possibly leaving the last one rebuilding (WO)
+		for _, i := range rng.Perm(len(r.names)) {
+			if r.c.StartSignalled {
+				break
+			}
+			do(Op{Ev: "Register", A: r.names[i]})
+		}
+		if r.c.StartSignalled {
+			do(Op{Ev: "Start", A: r.nameOf(r.c.MaxRevReplica)})
+		}
+		target := 1 + rng.Intn(r.sc.RF)
+		leaveWO := rng.Intn(2) == 0
+		for len(r.members()) > 0 && len(r.members()) < target {
+			cl := r.closedNodes()
+			if len(cl) == 0 {
+				break
+			}
+			a := cl[rng.Intn(len(cl))]
+			do(Op{Ev: "Add", A: a})
+			if r.members()[a] != "WO" {
+				break
+			}
+			if rng.Intn(3) == 0 {
+				do(Op{Ev: "Write"})
+			}
+			if len(r.members()) == target && leaveWO {
+				break
+			}
+			src := ""
+			for nm, mode := range r.members() {
+				if mode == "RW" {
+					src = nm
+				}
+			}
+			if src == "" {
+				break
+			}
+			do(Op{Ev: "RebuildCopy", A: a, Src: src})
+			do(Op{Ev: "Verify", A: a})
+		}
+		n += steps
 	}
 	for steps < n {
 		m := r.members()
